@@ -47,3 +47,6 @@ PROBES = list(PROBES) + ["K5:every-next-in-a-new-thread", "K5:first-here-rest-in
 RULE = RULE + (" Round 10: consumer K5 - 8% of plans are handed from thread to thread (each next() in a new thread / first block here, the rest in one worker / made in a worker, "
                "consumed here), every call joined before the next: no concurrency, only the identity of the calling thread varies. A fifth of the small file sets first hold an "
                "earlier recording of the same byte size with a longer header at the same paths (opened, read, dropped).")
+
+# dimensions added in seeded round 11
+RULE = RULE + " Round 11: a quarter of the large sets are cut into (almost) equal files of 100-140 thousand samples whose lengths differ by 0-2 samples; 12% of plans start within three samples of a file boundary."
